@@ -249,7 +249,9 @@ static CodecCase gen_codec() {
   c.src = gen_bits((int)R(0, NFORMATS - 1), 110, 4);
   c.dst = gen_bits(gen_dst_fmt(), 110, 4);
   if (c.mode == 0) {
-    bool wide = !is_narrow(c.src.code());
+    // narrow sources are read through both pipelines: the 8-bit readers (a8r8g8b8 destination) and the float readers
+    // (rgba_float destination forces the wide pipeline)
+    bool wide = !is_narrow(c.src.code()) || coin(45);
     c.dst.fmt = fmt_index(wide ? PIXMAN_rgba_float : PIXMAN_a8r8g8b8);
   }
   if (c.mode == 1) c.src.fmt = fmt_index(is_narrow(c.dst.code()) ? PIXMAN_a8r8g8b8 : PIXMAN_rgba_float);
@@ -307,7 +309,19 @@ static Verdict run_codec(const CodecCase &c) {
     pixman_image_set_filter(src->im, PIXMAN_FILTER_NEAREST, nullptr, 0);
     pixman_image_composite32(PIXMAN_OP_SRC, src->im, nullptr, d2->im, c.sx, c.sy, 0, 0, c.dx, c.dy, c.w, c.h);
     long d = first_diff(*d1, *d2);
-    if (d >= 0) v.fail(fmt("scanline and single-pixel readers of %s disagree at destination byte %ld (%02x vs %02x)", FORMATS[c.src.fmt].name, d, d1->buf.p[d], d2->buf.p[d]));
+    if (d >= 0) v.fail(fmt("scanline and single-pixel readers of %s disagree at destination byte %ld (%02x vs %02x) [%s destination]", FORMATS[c.src.fmt].name, d, d1->buf.p[d], d2->buf.p[d], FORMATS[c.dst.fmt].name));
+    // widening to float: value / (2^n - 1) per channel (absent alpha 1, absent colour 0), for packed formats
+    if (v.ok && df == PIXMAN_rgba_float && packed_rgb(sf) && !is_srgb(sf)) {
+      for (int y = 0; y < c.h && v.ok; y++)
+        for (int x = 0; x < c.w && v.ok; x++) {
+          ColF want = decode_real(sf, raw_get(src->rowp(c.sy + y), bpp(sf), c.sx + x));
+          const float *q = (const float *)d2->rowp(c.dy + y) + 4 * (c.dx + x);
+          long double wv[4] = {want.r, want.g, want.b, want.a};
+          for (int k = 0; k < 4; k++)
+            if (fabsl((long double)q[k] - wv[k]) > 1.0L / 1048576)
+              v.fail(fmt("single-pixel float reader of %s: channel %d of pixel (%d,%d) is %.8f, value/max is %.8Lf", FORMATS[c.src.fmt].name, k, x, y, (double)q[k], wv[k]));
+        }
+    }
     v.nontrivial = (c.sx * bpp(sf)) % 32 != 0 || is_indexed(sf) || is_yuv(sf);
     v.label(std::string("src_") + FORMATS[c.src.fmt].name);
     return v;
